@@ -214,6 +214,30 @@ def run(R):
                             "suppresses a later accepted group with the same tuple", [add.loc()])
             else:
                 R.ok("C08.agg", "agg|order", "the tuple is recorded only after HAVING accepted the group", add.loc())
+            # the tuple that was tested is the tuple that is emitted: nothing writes into it between add() and the push of its row
+            def _root(op):
+                pl, n_ = op.get("pl"), 0
+                while pl is not None and n_ < 8:
+                    n_ += 1
+                    defs = [st for _, st in F._assign_defs(f).get(pl["l"], []) if not st["pl"]["p"]]
+                    if len(defs) == 1 and defs[0]["rv"]["k"] == "use" and defs[0]["rv"]["op"].get("pl") is not None:
+                        pl = defs[0]["rv"]["op"]["pl"]
+                    elif len(defs) == 1 and defs[0]["rv"]["k"] in ("ref", "copy_for_deref", "rawptr"):
+                        pl = defs[0]["rv"]["pl"]
+                    else:
+                        break
+                return pl["l"] if pl is not None else None
+            tl = _root(add.args[1])
+            after_add = f.reachable_from(add.bb, avoid={lp[0]} if lp else set())
+            muts = [(i, st) for i, st in f.stmts() if i in after_add and i != add.bb and st["k"] == "assign" and st["rv"]["k"] == "ref" and
+                    st["rv"].get("bk") in ("mut", "Mut") and st["rv"]["pl"]["l"] == tl and tl is not None] if tl is not None else []
+            if muts:
+                R.violation("C08.agg", "agg|changed-after-test", "execute_result changes the tuple after DistinctValues::add has seen it (a "
+                            "mutable borrow of the tested vector at line %d): rows that differ only before the change are both emitted although "
+                            "they print the same, or equal rows are tested as different" % muts[0][1]["line"],
+                            ["%s:%d" % (f.file, muts[0][1]["line"])])
+            else:
+                R.ok("C08.agg", "agg|same-tuple", "the tested vector is not written between add() and the push of its row", add.loc(), nontrivial=False)
             # memory local to the call
             # the receiver of add() is a value created in this call (any constructor), not something reached through self
             recv_os = F.origins(f, add.args[0], depth=6, through_calls=False)
